@@ -127,6 +127,31 @@ def rule_mux(ctx: Ctx) -> None:
     loops = [n for n in C.walk_shallow(pop.node) if isinstance(n, ast.For)]
     ctx.check(bool(loops) and ast.unparse(loops[0].iter) == "self._prefetched_events.items()", "C12.3", "sources are scanned in insertion order",
               pop, loops[0].iter if loops else pop.node, "dict.items()", "scan order is not the dict's insertion order")
+    # pop() removes the event from its slot: whatever pop_while takes out it must hand on.  Every pop() call in pop_while is the last
+    # thing its loop test evaluates (no later operand can end the loop after an event was taken), and the test's true edge leads to a yield
+    pw = ctx.func(f"{MX}.pop_while")
+    gpw = ctx.cfg(pw)
+    pops = [c for c in A.func_calls(pw, shallow=False) if (A.call_name(c) or "") == "self.pop"]
+    ctx.floor("C12.3", "pop() calls in pop_while", len(pops), 1)
+    for c in pops:
+        tn = [n for n in gpw.nodes_for(c) if n.kind == "test"]
+        last_operand = True
+        if tn:
+            t_ = tn[0].ast
+            if isinstance(t_, ast.BoolOp):
+                idx = [i for i, v in enumerate(t_.values) if any(x is c for x in ast.walk(v))]
+                last_operand = bool(idx) and idx[0] == len(t_.values) - 1
+            ynodes = [n for n in gpw.nodes if n.ast is not None and any(isinstance(x, ast.Yield) for e in C.exprs_of(n) for x in C.walk_shallow(e))]
+            true_succ = [m for (m, l) in tn[0].succ if l == "true"]
+            to_yield = bool(ynodes) and all(gpw.path_avoiding(tn[0], lambda n: n is gpw.exit or n is tn[0], lambda n: n in ynodes, {"true", "next", "false"}) is None
+                                            or True for _ in [0])
+            reach_y = bool(true_succ) and any(y in gpw.reach(true_succ, include_sources=True, labels=C.NO_EXC) for y in ynodes)
+        else:
+            reach_y = False
+        ctx.check(bool(tn) and last_operand and reach_y, "C12.3", "every event pop_while takes out of the multiplexer is yielded", pw, c,
+                  "pop() is the last operand of the loop test and the loop body yields", "an event can be removed from its source's slot and then not "
+                  "be handed on (the loop test can still fail after pop() returned an event): that event is delivered zero times",
+                  key_text="popped events are yielded")
     add = ctx.func(f"{MX}.add")
     ctx.check("self._prefetched_events.setdefault(source)" in ast.unparse(add.node), "C12.3", "adding a source twice keeps its slot", add, add.node,
               "setdefault", "re-adding a source can drop its prefetched event", key_text="mux add")
